@@ -5,6 +5,7 @@ from __future__ import annotations
 import collections
 import copy
 import types
+import typing as t
 import warnings
 
 import pane
@@ -33,15 +34,70 @@ def outcome(f, *a, **kw) -> dict:
         return {'k': 'ok', 'x': {'k': 'alien', 'c': 'recursive'}}
 
 
+_build_failures: dict = {}
+
+
+def build_failure(T: dict, sp: int):
+    """None if make_converter succeeds on the concretised type, else (exception class name,
+    minimal failing sub-type). Building happens with no data in hand (C04)."""
+    key = (vocab.canon(T), sp)
+    if key in _build_failures:
+        return _build_failures[key]
+    r = None
+    try:
+        make_converter(concretise_type(T, sp))
+    except OutOfVocab:
+        raise
+    except Exception as e:  # noqa
+        r = (type(e).__name__, T)
+        for sub in type_children(T):
+            try:
+                sr = build_failure(sub, sp)
+            except OutOfVocab:
+                continue
+            if sr is not None:
+                r = (type(e).__name__, sr[1])
+                break
+    _build_failures[key] = r
+    return r
+
+
+def type_children(T: dict) -> list:
+    k = T['k']
+    if k in ('list', 'tuplevar', 'set', 'frozenset', 'deque'):
+        return [T['e']]
+    if k == 'tuple':
+        return list(T['es'])
+    if k in ('dict', 'defaultdict', 'ordereddict'):
+        return [T['kt'], T['vt']]
+    if k == 'counter':
+        return [T['kt']]
+    if k == 'struct':
+        return [f[1] for f in T['fs']]
+    if k == 'union':
+        return list(T['alts'])
+    if k == 'ann':
+        return [T['t']]
+    if k == 'tvar':
+        return list(T['ts'])
+    if k == 'tagged':
+        return list(T['vars'])
+    if k == 'cls':
+        return [f['t'] for f in T['fs']]
+    return []
+
+
 class Case:
-    __slots__ = ('T', 'v', 'sp', 'ty', 'val', 'err')
+    __slots__ = ('T', 'v', 'sp', 'ty', 'val', 'err', 'bf')
 
     def __init__(self, T, v, sp=0):
         self.T, self.v, self.sp = T, v, sp
         self.err = None
+        self.bf = None
         try:
             self.ty = concretise_type(T, sp)
             self.val = concretise(v)
+            self.bf = build_failure(T, sp)
         except OutOfVocab as e:
             self.err = str(e)
 
@@ -51,6 +107,9 @@ class Case:
 
 
 def ev_from_data(ident: int, c: Case) -> dict:
+    if c.bf is not None:
+        return {'id': ident, 'op': 'from_data', 'ty': c.T, 'val': c.v, 'out': {'k': 'exc', 'c': c.bf[0], 'phase': 'build'},
+                'rerun': 'T'}
     out = outcome(pane.from_data, c.val, c.ty)
     out2 = outcome(pane.from_data, c.val, c.ty)
     return {'id': ident, 'op': 'from_data', 'ty': c.T, 'val': c.v, 'out': out,
@@ -109,10 +168,10 @@ def children(T: dict, v: dict) -> list:
             for p in v['ps']:
                 if p[0]['k'] == 'str':
                     for f in T['fs']:
-                        if p[0]['s'] in f['ins']:
+                        if p[0]['s'] in f['ins'] and f.get('init', 'T') == 'T':
                             out.append((f['t'], p[1]))
         elif v['k'] == 'seq':
-            pos = [f for f in T['fs'] if f['kw'] == 'F']
+            pos = [f for f in T['fs'] if f['kw'] == 'F' and f.get('init', 'T') == 'T']
             out = [(f['t'], x) for f, x in zip(pos, v['xs'])]
     elif k == 'tagged':
         if v['k'] == 'map':
@@ -178,8 +237,12 @@ def vkind(v: dict, T: dict | None = None) -> str:
 
 
 def signature(clause: str, c: Case, ev: dict) -> dict:
-    sig = {'clause': clause, 'type_kind': tkind(c.T), 'value_kind': vkind(c.v, c.T)}
     out = ev.get('out')
+    if c.bf is not None:
+        # the converter cannot even be built: the witness is the type (its minimal failing part), not the value
+        return {'clause': 'build-fails-documented' if clause == 'foreign-exception' else clause,
+                'type_kind': tkind(c.bf[1]), 'value_kind': '-', 'outcome': 'exc:' + c.bf[0]}
+    sig = {'clause': clause, 'type_kind': tkind(c.T), 'value_kind': vkind(c.v, c.T)}
     if isinstance(out, dict):
         sig['outcome'] = out['k'] + (':' + out['c'] if out['k'] == 'exc' else '')
     return sig
@@ -194,6 +257,8 @@ def _exc(e: BaseException) -> str:
 def ev_passes(ident: int, c: Case) -> dict:
     """C03: the two passes of the documented extension interface, separately, and convert()."""
     from pane.errors import ErrorNode
+    if c.bf is not None:   # a type that cannot be built is C04's business, not C03's
+        raise OutOfVocab('converter cannot be built')
     cv = make_converter(c.ty)
     try:
         cv.try_convert(c.val)
@@ -333,3 +398,119 @@ def native_copy(x):
     if type(x) is collections.defaultdict:
         return collections.defaultdict(x.default_factory, ((native_copy(k), native_copy(v)) for k, v in x.items()))
     return concretise(abstract(x))
+
+
+def ev_unionser(ident: int, c: Case) -> dict:
+    """C11, serialisation direction: into_data(x, Union[...]) for x obtained by conversion."""
+    e = {'id': ident, 'op': 'unionser', 'ty': c.T, 'val': c.v}
+    if c.T['k'] != 'union':
+        raise OutOfVocab('not a union')
+    try:
+        x = pane.from_data(c.val, c.ty)
+        e['x'] = abstract(x)
+        e['have'] = 'T'
+    except Exception:  # noqa
+        e.update(x={'k': 'none'}, have='F', d={'k': 'skip'}, out={'k': 'unconverted'})
+        return e
+    e['d'] = _call(pane.into_data, x, c.ty)[0]
+    e['out'] = {'k': e['d']['k']}
+    return e
+
+
+def ev_build(ident: int, c_or_T, documented: bool = True) -> dict:
+    """C04, build phase: make_converter on the type alone (no data in hand)."""
+    T = c_or_T.T if isinstance(c_or_T, Case) else c_or_T
+    try:
+        ty = concretise_type(T, getattr(c_or_T, 'sp', 0))
+        make_converter(ty)
+        out = {'k': 'ok'}
+    except OutOfVocab:
+        raise
+    except Exception as e:  # noqa
+        out = {'k': 'exc', 'c': type(e).__name__}
+    return {'id': ident, 'op': 'build', 'ty': T, 'val': {'k': 'none'}, 'out': out, 'doc': 'T' if documented else 'F', 'must': 'any'}
+
+
+def ev_tagmsg(ident: int, c: Case) -> dict:
+    """C12: does the text of the ConvertError name the tag (substring search only)."""
+    T = c.T
+    if T['k'] != 'tagged':
+        raise OutOfVocab('not tagged')
+    msg = {'tag': 'F', 'tk': 'F', 'tags': 'F'}
+    try:
+        pane.from_data(c.val, c.ty)
+        out = {'k': 'ok'}
+    except ConvertError as e:
+        out = {'k': 'reject'}
+        try:
+            txt = str(e)
+        except Exception:  # noqa
+            txt = ''
+        msg['tag'] = 'T' if vocab.text(T['tag']) in txt else 'F'
+        msg['tk'] = 'T' if repr(vocab.text(T['tk'])) in txt or f"'{vocab.text(T['tk'])}'" in txt else 'F'
+        msg['tags'] = 'T' if all(repr(concretise(tg)) in txt for tg in T['tags']) else 'F'
+    except Exception as e:  # noqa
+        out = {'k': 'exc', 'c': type(e).__name__}
+    return {'id': ident, 'op': 'tagmsg', 'ty': T, 'val': c.v, 'out': out, 'msg': msg}
+
+
+def unsupported_catalogue() -> list:
+    """Type expressions outside the documented grammar (C04: must fail with TypeError or
+    UnsupportedAnnotation at build time, before any data is looked at)."""
+    import enum as _enum
+    import typing as t
+    import collections.abc as cabc
+    from pane.annotations import Tagged
+
+    class _Flag(_enum.Flag):
+        A = 1
+        B = 2
+
+    class _EnumUnhashable(_enum.Enum):
+        A = [1]
+
+    class _EnumAlien(_enum.Enum):
+        A = object()
+
+    class _V(pane.PaneBase):
+        kind: t.Literal['a'] = 'a'
+
+    class _W(pane.PaneBase):
+        other: int = 1
+
+    class _V2(pane.PaneBase):
+        kind: t.Literal['a'] = 'a'
+        z: int = 0
+
+    NT = t.NewType('NT', int)
+    cat = [
+        ('forward-ref', t.ForwardRef('Nope')), ('str-annotation', 'int'), ('Final', t.Final[int]),
+        ('ClassVar', t.ClassVar[int]), ('NewType', NT), ('Callable', t.Callable[[int], int]), ('object', object),
+        ('Annotated-doc', t.Annotated[int, 'doc']), ('Tagged-non-union', t.Annotated[int, Tagged('kind')]),
+        ('Tagged-member-lacks-tag', t.Annotated[t.Union[_V, _W], Tagged('kind')]),
+        ('Pattern[int]', t.Pattern[int]), ('flag-enum', _Flag), ('enum-unhashable', _EnumUnhashable),
+        ('enum-alien', _EnumAlien), ('abstract-collection', cabc.Collection), ('Iterable', t.Iterable[int]),
+        ('type-object', type), ('Generic-alias', t.Type[int]), ('None-literal', None), ('Ellipsis', ...),
+    ]
+    dup = [('Tagged-duplicate-tags', t.Annotated[t.Union[_V, _V2], Tagged('kind')]),
+           ('Tagged-duplicate-tags-ext', t.Annotated[t.Union[_V, _V2], Tagged('kind', external=True)]),
+           ('Tagged-duplicate-tags-adj', t.Annotated[t.Union[_V, _V2], Tagged('kind', external=('t', 'c'))])]
+    return [(n, ty, 'any') for n, ty in cat] + [(n, ty, 'fail') for n, ty in dup]
+
+
+def build_events_unsupported(start_id: int, only_dup: bool = False) -> tuple:
+    evs, desc = [], {}
+    i = start_id
+    for name, ty, must in unsupported_catalogue():
+        if only_dup and must != 'fail':
+            continue
+        i += 1
+        try:
+            make_converter(ty)
+            out = {'k': 'ok'}
+        except Exception as e:  # noqa
+            out = {'k': 'exc', 'c': type(e).__name__}
+        evs.append({'id': i, 'op': 'build', 'ty': {'k': 'unsupported', 'name': name}, 'val': {'k': 'none'}, 'out': out,
+                    'doc': 'F', 'must': must})
+        desc[i] = name
+    return evs, desc
